@@ -1,7 +1,7 @@
 (* C14 -- Message streams are fragmentation-proof and gated by the handshake.
    Property theorems only; proofs live in Proofs/FrameProofs.v, Proofs/ShakeProofs.v. *)
 From Coq Require Import List ZArith Bool.
-From DV Require Import Model.Frame Proofs.FrameProofs.
+From DV Require Import Model.Frame Model.Shake Proofs.FrameProofs Proofs.ShakeProofs.
 Import ListNotations.
 Open Scope Z_scope.
 
@@ -111,3 +111,70 @@ Example C14_channel_example :
   quiet (removelast (whole ch finit (concat chunks))) = true
   /\ snd (conn_run ch cinit chunks) = [Deliver [2]; Deliver [1]; Close].
 Proof. split; vm_compute; reflexivity. Qed.
+
+(* ======================= handshake gate (security.TwistedWrapper) ========== *)
+
+(* No application message is delivered while the wrapper is in phases 1..5:
+   for every oracle, channel and chunking, if the connection history ends with
+   the wrapper not in phase 6, nothing was ever delivered. *)
+Theorem C14_gate : forall O ch chunks c tr,
+  sconn_run O ch sinit chunks = (c, tr) -> wphase (sw c) <> P6 -> deliveries tr = [].
+Proof.
+  intros O ch chunks c tr R Hp.
+  destruct (S_run_locked O ch chunks sinit c tr S_sinit_locked R) as [(_ & P & _)|[[_ U] _]].
+  - apply S_plain_deliveries, P.
+  - contradiction.
+Qed.
+Print Assumptions C14_gate.
+
+(* ... nor as long as dataReceived has not been handed back *)
+Theorem C14_gate_restored : forall O ch chunks c tr,
+  sconn_run O ch sinit chunks = (c, tr) -> wrestored (sw c) = false -> deliveries tr = [].
+Proof.
+  intros O ch chunks c tr R Hr.
+  destruct (S_run_locked O ch chunks sinit c tr S_sinit_locked R) as [(_ & P & _)|[[U _] _]].
+  - apply S_plain_deliveries, P.
+  - rewrite U in Hr. discriminate.
+Qed.
+Print Assumptions C14_gate_restored.
+
+(* A delivery implies that some blob passed the signature check AND the echo
+   comparison: a peer that cannot produce such a blob never gets a message in. *)
+Theorem C14_verified : forall O ch chunks c tr,
+  sconn_run O ch sinit chunks = (c, tr) -> deliveries tr <> [] ->
+  exists b, verify O b = true /\ echo_ok O b = true.
+Proof.
+  intros O ch chunks c tr R Hd.
+  destruct (S_run_locked O ch chunks sinit c tr S_sinit_locked R) as [(_ & P & _)|[_ Pa]].
+  - exfalso. apply Hd, S_plain_deliveries, P.
+  - exact Pa.
+Qed.
+Print Assumptions C14_verified.
+
+(* Fail closed: a connection that died before dataReceived was handed back
+   (i.e. some phase failed) was closed by loseConnection, delivered nothing, and
+   -- the transport delivering nothing after loseConnection -- never will. *)
+Theorem C14_fail_closed : forall O ch chunks c tr,
+  sconn_run O ch sinit chunks = (c, tr) -> slive c = false -> wrestored (sw c) = false ->
+  In Close tr /\ deliveries tr = [] /\ forall later, sconn_run O ch c later = (c, []).
+Proof.
+  intros O ch chunks c tr R Hl Hr.
+  destruct (S_run_locked O ch chunks sinit c tr S_sinit_locked R) as [(_ & P & C)|[[U _] _]].
+  - split; [apply C; [reflexivity|exact Hl]|]. split; [apply S_plain_deliveries, P|].
+    intros later. apply S_dead_run, Hl.
+  - rewrite U in Hr. discriminate.
+Qed.
+Print Assumptions C14_fail_closed.
+
+(* non-vacuity: a history that passes, one that is still in phase 4, one that fails *)
+Example C14_gate_example :
+  (exists c tr, sconn_run ex_O ex_ch sinit (split_lens [3; 7; 9] ex_stream) = (c, tr)
+                /\ deliveries tr = [[5]] /\ wphase (sw c) = P6)
+  /\ (exists c tr, sconn_run ex_O ex_ch sinit [firstn 12 ex_stream] = (c, tr)
+                  /\ wphase (sw c) = P4 /\ tr <> [])
+  /\ (exists c tr, sconn_run (oracle_of [[7]] [] [99]) ex_ch sinit [ex_stream] = (c, tr)
+                  /\ slive c = false /\ wrestored (sw c) = false).
+Proof.
+  split; [|split]; eexists; eexists; (split; [vm_compute; reflexivity|]); split;
+  try reflexivity; discriminate.
+Qed.
